@@ -655,6 +655,30 @@ def rule_f(ctx, ix):
                detail='memo key %s depends only on %s: calls differing in the other argument kind share a cache entry '
                       '(to_mask(data, view=v1) would answer for view=v2)' % (unparse(kd.value), sorted(deps)),
                where='%s:%d' % (f.module.relpath, kd.lineno))
+    # ... and is injective in them: the arguments become part of the key as they are
+    for kd in keydefs:
+        exprs = [kd.value]
+        if isinstance(kd.value, ast.Call) and isinstance(kd.value.func, ast.Name):
+            helper = ix.functions.get(ix.resolve_expr(f.module, kd.value.func))
+            if helper is not None:
+                exprs = [r.value for r in returns_of(helper) if r.value is not None]
+        converted, unknown = [], []
+        for e in exprs:
+            for n in ast.walk(e):
+                if isinstance(n, (ast.GeneratorExp, ast.ListComp, ast.SetComp, ast.DictComp)):
+                    elts = [n.key, n.value] if isinstance(n, ast.DictComp) else [n.elt]
+                    converted += [c for el in elts for c in ast.walk(el) if isinstance(c, ast.Call)]
+                elif isinstance(n, ast.Call) and call_name(n) not in ('frozenset', 'tuple', 'sorted', 'items', 'dict'):
+                    inside = any(n in list(ast.walk(el)) for m in ast.walk(e) if isinstance(m, (ast.GeneratorExp, ast.ListComp, ast.SetComp))
+                                 for el in [m.elt])
+                    if not inside:
+                        unknown.append(n)
+        ctx.idiom(R, f.construct + ' key', 'the arguments enter the key unconverted', accepted=not converted and not unknown, absent=bool(converted),
+                  detail_absent='the memo key converts each argument with `%s` before using it: arguments that differ but convert to the same '
+                                'value share a cache entry (a list view [0, 1] - fancy indexing - and the tuple view (0, 1) - one element - '
+                                'select different elements, and the second call is answered with the mask of the first)'
+                                % (unparse(converted[0]) if converted else ''),
+                  shape='; '.join(unparse(u) for u in unknown)[:200], where='%s:%d' % (f.module.relpath, kd.lineno))
     # every store memo[key] = X: X is func(*args, **kwargs)
     stores = [st for st in ast.walk(w) if isinstance(st, ast.Assign) and isinstance(st.targets[0], ast.Subscript)
               and isinstance(st.targets[0].value, ast.Name) and st.targets[0].value.id == memo]
